@@ -938,7 +938,48 @@ def check_ir_witnesses(ctx, F):
                 got = (_strip(f["object_type"]), f["name"], f["offset"], f["size"], (tag, content))
             check(f"update-mask field {ot}.{nm} at {off} size {sz}", got, (ot, nm, off, sz, want_dt), fn)
 
-    for sec in (versions, sizes, file_info, container_type, enumerator, whole_definer, update_mask, if_statement, definition, types, arrays, test_values, test_case, members):
+    def struct_list():
+        # --- which structs reach the `structs` array of the IR, and in which order: every struct object once - also the copies that
+        # `paste_versions` makes of one definition (same file, same line, different versions) -, none that is only an update-mask
+        # helper, and a struct after the structs its members are made of
+        fn = F.fn(IR + "TypeObjects::structs_in_order")
+        if fn is None:
+            ctx.violate("ir.witness", "anchor|structs_in_order", "ir_printer::TypeObjects::structs_in_order not found (anchor disappeared)")
+            return
+        C = "crate::parser::types::container::Container"
+        SM = "wow_message_parser::parser::types::struct_member::StructMember::"
+        TY = "wow_message_parser::parser::types::ty::Type::"
+
+        def cont(name, version, line, members=(), um=False, file="a.wowm"):
+            tags = ("struct", "crate::parser::types::tags::ObjectTags", {"all_versions": ("versions", version), "rust_versions": None, "comment": None, "used_in_update_mask": um})
+            fi = ("struct", "crate::file_info::FileInfo", {"file_name": file, "path": file, "start_position": line, "end_position": line + 3})
+            return ("struct", C, {"name": name, "object_type": None, "sizes": None, "members": list(members), "tags": tags, "file_info": fi, "only_has_io_error": False,
+                                  "rust_object_view": None, "objects_used_in": None})
+
+        def member(name, c):
+            d = ("struct", "crate::parser::types::struct_member::StructMemberDefinition", {"name": name, "struct_type": ("struct", TY + "Struct", {"e": c}), "value": None,
+                                                                                        "used_as_size_in": None, "is_manual_size_field": None, "used_in_if": False, "tags": None})
+            return ("variant", SM + "Definition", [d])
+        a1, a2, a3 = cont("A", "1.12", 1), cont("A", "2.4.3", 1), cont("A", "3.3.5", 1)  # three copies pasted from one definition
+        e1 = cont("E", "1.12", 30)
+        d1 = cont("D", "1.12", 20, [member("inner", e1)])  # D is listed before the struct it contains
+        b1 = cont("B", "1.12", 10, [member("first", a1)])
+        um = cont("Helper", "1.12", 40, um=True)
+        seen = []
+
+        def to_ir(a):
+            seen.append([(c[2]["name"], c[2]["tags"][2]["all_versions"][1]) for c in a[0]])
+            return ("ir",)
+        run_(fn["path"], [[a1, a2, a3, b1, d1, e1, um], None], {"::container::containers_to_ir": to_ir})
+        got = seen[0] if seen else None
+        want_set = sorted([("A", "1.12"), ("A", "2.4.3"), ("A", "3.3.5"), ("B", "1.12"), ("D", "1.12"), ("E", "1.12")])
+        check("the struct list of [A{1.12}, A{2.4.3}, A{3.3.5} pasted from one definition, B containing A, D containing E, E, an update-mask helper]: which structs are emitted",
+              sorted(got) if got is not None else None, want_set, fn)
+        if got is not None and sorted(got) == want_set:
+            order_ok = got.index(("A", "1.12")) < got.index(("B", "1.12")) and got.index(("E", "1.12")) < got.index(("D", "1.12"))
+            check("the same list: a struct comes after the structs its members are made of", order_ok, True, fn)
+
+    for sec in (struct_list, versions, sizes, file_info, container_type, enumerator, whole_definer, update_mask, if_statement, definition, types, arrays, test_values, test_case, members):
         section(sec)
     ctx.rule("ir.witness", n, floor=55, note="IR conversion functions interpreted on distinguishing instances (version components incl. literal zeros, min/max sizes, line numbers, container kinds with opcodes, enumerator value and spelling, values of if / else-if / else arms, every attribute of a member definition, enum / flag upcasts and integer widths, array element / size kinds with count or size-field name and compression, test-vector value kinds, test case subject / member order / bytes / lines, member order of optional tails)")
 
